@@ -14,7 +14,11 @@ def inflight (s : St) : Nat := (s.tasks.filter (fun t => isWrite t.2)).length + 
 
 def cap (cfg : Cfg) : Nat := max cfg.maxRecords 1
 
-def CapInv (cfg : Cfg) (s : St) : Prop := s.index.length + inflight s ≤ cap cfg
+/-- listed records plus writes / notifications in flight stay within the capacity plus an allowance `L` (the number of
+file deletions lost in crashes so far; `0` in a history without crashes) -/
+def CapInvL (cfg : Cfg) (L : Nat) (s : St) : Prop := s.index.length + inflight s ≤ cap cfg + L
+
+def CapInv (cfg : Cfg) (s : St) : Prop := CapInvL cfg 0 s
 
 theorem length_erase_le {α : Type} (k : Nat) (l : List (Nat × α)) : (erase k l).length ≤ l.length :=
   List.length_filter_le _ _
@@ -85,22 +89,22 @@ theorem inflight_removeKey (dist : Nat → Nat) (s : St) (k : Nat) : inflight (r
 theorem index_removeKey_le (dist : Nat → Nat) (s : St) (k : Nat) : (removeKey dist s k).index.length ≤ s.index.length :=
   length_erase_le _ _
 
-theorem CapInv.removeKey {cfg : Cfg} {dist : Nat → Nat} {s : St} (h : CapInv cfg s) (k : Nat) :
-    CapInv cfg (removeKey dist s k) := by
-  unfold CapInv at *
+theorem CapInvL.removeKey {cfg : Cfg} {L : Nat} {dist : Nat → Nat} {s : St} (h : CapInvL cfg L s) (k : Nat) :
+    CapInvL cfg L (removeKey dist s k) := by
+  unfold CapInvL at *
   rw [inflight_removeKey]
   have := index_removeKey_le dist s k
   omega
 
-theorem CapInv.foldl_removeKey {cfg : Cfg} {dist : Nat → Nat} (ks : List Nat) {s : St} (h : CapInv cfg s) :
-    CapInv cfg (ks.foldl (SafeNet.Store.removeKey dist) s) := by
+theorem CapInvL.foldl_removeKey {cfg : Cfg} {L : Nat} {dist : Nat → Nat} (ks : List Nat) {s : St} (h : CapInvL cfg L s) :
+    CapInvL cfg L (ks.foldl (SafeNet.Store.removeKey dist) s) := by
   induction ks generalizing s with
   | nil => exact h
   | cons k ks ih => exact ih (h.removeKey k)
 
-theorem CapInv.putVerified {cfg : Cfg} {dist : Nat → Nat} {s : St} (hv : Views dist s) (h : CapInv cfg s)
-    (hq : inflight s = 0) (k v : Nat) (rt : RType) : CapInv cfg (putVerified cfg dist s k v rt).1 := by
-  unfold CapInv at *
+theorem CapInvL.putVerified {cfg : Cfg} {L : Nat} {dist : Nat → Nat} {s : St} (hv : Views dist s) (h : CapInvL cfg L s)
+    (hq : inflight s = 0) (k v : Nat) (rt : RType) : CapInvL cfg L (putVerified cfg dist s k v rt).1 := by
+  unfold CapInvL at *
   have hcap : 1 ≤ cap cfg := by unfold cap; omega
   have hmax : cfg.maxRecords ≤ cap cfg := by unfold cap; omega
   unfold SafeNet.Store.putVerified
@@ -110,7 +114,7 @@ theorem CapInv.putVerified {cfg : Cfg} {dist : Nat → Nat} {s : St} (hv : Views
     split
     · exact h
     · rename_i s2 hs2
-      have key : s2.index.length + inflight s2 + 1 ≤ cap cfg := by
+      have key : s2.index.length + inflight s2 + 1 ≤ cap cfg + L := by
         unfold prune at hs2
         simp only at hs2
         split at hs2
@@ -143,8 +147,8 @@ theorem CapInv.putVerified {cfg : Cfg} {dist : Nat → Nat} {s : St} (hv : Views
       simp only [List.filter_cons, isWrite_write, ↓reduceIte, List.filter_nil, List.length_cons, List.length_nil]
       omega
 
-theorem CapInv.runTask {cfg : Cfg} {s : St} (h : CapInv cfg s) (id : Nat) : CapInv cfg (runTask s id).1 := by
-  unfold CapInv at *
+theorem CapInvL.runTask {cfg : Cfg} {L : Nat} {s : St} (h : CapInvL cfg L s) (id : Nat) : CapInvL cfg L (runTask s id).1 := by
+  unfold CapInvL at *
   unfold SafeNet.Store.runTask
   split
   · exact h
@@ -165,9 +169,9 @@ theorem CapInv.runTask {cfg : Cfg} {s : St} (h : CapInv cfg s) (id : Nat) : CapI
         omega
     · exact h
 
-theorem CapInv.deliver {cfg : Cfg} {dist : Nat → Nat} {s : St} (h : CapInv cfg s) (id : Nat) :
-    CapInv cfg (deliver dist s id).1 := by
-  unfold CapInv at *
+theorem CapInvL.deliver {cfg : Cfg} {L : Nat} {dist : Nat → Nat} {s : St} (h : CapInvL cfg L s) (id : Nat) :
+    CapInvL cfg L (deliver dist s id).1 := by
+  unfold CapInvL at *
   unfold SafeNet.Store.deliver
   split
   · exact h
@@ -180,13 +184,13 @@ theorem CapInv.deliver {cfg : Cfg} {dist : Nat → Nat} {s : St} (h : CapInv cfg
       omega
     · exact h
 
-theorem CapInv.cleanup {cfg : Cfg} {dist : Nat → Nat} {s : St} (h : CapInv cfg s) : CapInv cfg (cleanup cfg dist s) := by
+theorem CapInvL.cleanup {cfg : Cfg} {L : Nat} {dist : Nat → Nat} {s : St} (h : CapInvL cfg L s) : CapInvL cfg L (cleanup cfg dist s) := by
   unfold SafeNet.Store.cleanup
   split
   · exact h
   · split
     · exact h
-    · exact CapInv.foldl_removeKey _ h
+    · exact CapInvL.foldl_removeKey _ h
 
 def isPut : Op → Bool
   | .put _ _ _ => true
@@ -202,8 +206,8 @@ def AckBeforePut (cfg : Cfg) (dist : Nat → Nat) : St → List Op → Prop
   | s, op :: ops =>
     (isPut op = true → inflight s = 0) ∧ isCrash op = false ∧ AckBeforePut cfg dist (step cfg dist s op).1 ops
 
-theorem CapInv.step {cfg : Cfg} {dist : Nat → Nat} {s : St} (hv : Views dist s) (h : CapInv cfg s) (op : Op)
-    (hp : isPut op = true → inflight s = 0) (hc : isCrash op = false) : CapInv cfg (step cfg dist s op).1 := by
+theorem CapInvL.step {cfg : Cfg} {L : Nat} {dist : Nat → Nat} {s : St} (hv : Views dist s) (h : CapInvL cfg L s) (op : Op)
+    (hp : isPut op = true → inflight s = 0) (hc : isCrash op = false) : CapInvL cfg L (step cfg dist s op).1 := by
   cases op with
   | put k v rt => exact h.putVerified hv (hp rfl) k v rt
   | remove k => exact h.removeKey k
@@ -212,10 +216,9 @@ theorem CapInv.step {cfg : Cfg} {dist : Nat → Nat} {s : St} (hv : Views dist s
   | setRange r => exact h
   | cleanup => exact h.cleanup
   | payment =>
-    unfold CapInv at *
-    simp only [SafeNet.Store.step, payment, inflight, List.filter_append, List.length_append] at h ⊢
-    simp only [List.filter_cons, isWrite_flush, Bool.false_eq_true, ↓reduceIte, List.filter_nil, List.length_nil]
-    omega
+    unfold CapInvL at *
+    simp only [SafeNet.Store.step, payment_eq, paymentSync, inflight] at h ⊢
+    exact h
   | crash t => simp [isCrash] at hc
 
 theorem CapInv.runFrom {cfg : Cfg} {dist : Nat → Nat} (inj : Injective dist) (ops : List Op) {s : St}
@@ -225,9 +228,9 @@ theorem CapInv.runFrom {cfg : Cfg} {dist : Nat → Nat} (inj : Injective dist) (
   | nil => exact h
   | cons op ops ih =>
     obtain ⟨hp, hc, hrest⟩ := ha
-    exact ih (hv.step inj op) (h.step hv op hp hc) hrest
+    exact ih (hv.step inj op) (CapInvL.step hv h op hp hc) hrest
 
 theorem CapInv.init (cfg : Cfg) (dist : Nat → Nat) : CapInv cfg (init cfg dist) := by
-  simp [CapInv, SafeNet.Store.init, restart, scanIndex, inflight, cap]
+  simp [CapInv, CapInvL, SafeNet.Store.init, restart, scanIndex, inflight, cap, flushSync]
 
 end SafeNet.Store
